@@ -285,6 +285,8 @@ class PandasModelBase(
             if res.dtype.kind in "iuf":
                 res = res.astype(float)
                 res[bad_posns] = numpy.nan
+            elif res.dtype.kind in "mM":
+                res[bad_posns] = None  # NaT: dates and durations keep their type
             else:
                 res = res.astype(object)
                 res[bad_posns] = None
